@@ -1,4 +1,6 @@
 import PySMT.Proofs.C03Create
+import PySMT.Proofs.C03Raw
+import PySMT.Proofs.C03Mk
 /-!
 # C03 — every formula that exists is well-typed; ill-typed applications are rejected
 
@@ -24,6 +26,14 @@ SMT-LIB sorting discipline (Spec/HasType.lean); `CreateNode` models `create_node
   quantifiers over function symbols — terms the wire format cannot carry; `payloadOk`
   excludes them. Still open (known findings): `Pow` on non-numeric sorts, arity and payload
   shape through a direct `create_node`.
+* `constructors_well_typed_partial` : the property's first sentence for the public constructors
+  of `Impl/Mk.lean` (`C03.Built`, 90 rules) — `wt`, outside F06, well-sorted with the reported
+  type; `create_preserves_good` is the generic step.
+* `typeOfNode_is_checker_on_arity`, `typeOf_is_checker_on_arity` : the model boundary as a
+  theorem — `typeOfNode` is the real checker's rule (`CreateNode.pyNode`) on every node of the
+  operator's arity; off the arity they differ and grid A compares with `pyNode` exactly.
+* `created_all_wt`, `createNode_accepts_partial` are **definitional on the model** (see their
+  docstrings): their content is the correspondence with formula.py:95-106, tested by K.
 * `created_all_wt` : invariant over all histories of `create_node` calls;
   `created_all_hasType_partial`, `createNode_rejects_illsorted_partial` : the two sentences
   of the property for the model of `create_node` (outside F06).
@@ -76,7 +86,12 @@ theorem typeOf_eq_sortOf_partial (t : Term) (hex : t.noF06 = true) (hrot : t.rot
       | none => exact .inr rfl
       | some τ => rw [sound_sortOf t τ hex hw ht] at hs; cases hs
 
-/-- Every formula returned by any sequence of `create_node` calls is well-typed. -/
+/-- Every formula returned by any sequence of `create_node` calls is well-typed.
+**Definitional on the model**: `CreateNode.createNode` returns `some t` exactly when
+`t.typeOf.isSome`, and arguments are earlier results, so this restates the model; its content
+is the correspondence of that model with formula.py:95-106 (both paths of `create_node` run the
+type check before returning), which is tested by K (grid A, histories, the repeat dimension),
+not proved. -/
 theorem created_all_wt (calls : List Call) : ∀ t ∈ (run calls).returned, t.wt = true :=
   CreateNode.created_all_wt calls
 
@@ -100,12 +115,58 @@ theorem createNode_rejects_illsorted_partial (s : Mgr) (op : Op) (args : List Te
     obtain ⟨τ, hτ⟩ := Option.isSome_iff_exists.1 hs
     exact hill ⟨τ, typeOf_sound_partial _ τ hex hw hτ⟩
 
-/-- A well-sorted application of accepted arguments is accepted and returned as is. -/
+/-- A well-sorted application of accepted arguments is accepted and returned as is.
+(One unfolding of `createNode` after `typeOf_complete_partial`: the content is that theorem.) -/
 theorem createNode_accepts_partial (s : Mgr) (op : Op) (args : List Term) (p : Payload) (τ : Ty)
     (hrot : (Term.node op args p).rotInRange = true) (h : HasType (.node op args p) τ) :
     (createNode s op args p).2 = some (.node op args p) := by
   have := (typeOf_complete_partial _ τ hrot h).1
   simp [createNode, this]
+
+/-! ## the public constructors (`Impl/Mk.lean`) -/
+
+/-- **First sentence of the property, for constructors.** Every term obtained from constants and
+plain symbols by calls of the public constructors modelled in `Impl/Mk.lean` (`C03.Built`: one
+rule per constructor — the rules are the list of constructors covered) is accepted by the checker
+at every node, lies outside the holes of F06, and is well-sorted with the reported type.
+`_partial`: (1) `Built` carries three side conditions `Mk` does not enforce itself — quantifier
+binders are plain symbols (the repaired code enforces it, f0cd2ee; `Mk`/`typeOfNode` ignore the
+binder list), `Function(f, [])` names a constant, `Pow` has a numeric base (known finding F06e);
+(2) not covered: `BV` given as a string (`Mk.BVStr`), the infix layer (`Mk.Infix`), `wf`/`normal`
+of C01/C05 (`noF06` is the C03 counterpart; the bridge `wt ∧ noF06 → wf` is not proved). -/
+theorem constructors_well_typed_partial (t : Term) (h : Built t) :
+    t.wt = true ∧ t.noF06 = true ∧ ∃ τ, t.typeOf = some τ ∧ HasType t τ := by
+  obtain ⟨hw, hn⟩ := built_good h
+  obtain ⟨τ, hτ⟩ := Option.isSome_iff_exists.1 (wt_typeOf_isSome t hw)
+  exact ⟨hw, hn, τ, hτ, typeOf_sound_partial t τ hn hw hτ⟩
+
+/-- The generic step: a node `Mk.create` (= `create_node`) returns over arguments that are
+accepted and outside F06 is accepted and outside F06 as soon as the node itself is outside the
+holes (`nodeOk`: arity, payload shape, `Pow` sorts). -/
+theorem create_preserves_good (op : Op) (args : List Term) (p : Payload) (t : Term)
+    (h : Mk.create op args p = .ok t) (hargs : ∀ a ∈ args, a.wt = true ∧ a.noF06 = true)
+    (hok : ∀ σs : List Ty, σs.length = args.length → args.map Term.typeOf = σs.map some → nodeOk op p σs = true) :
+    t.wt = true ∧ t.noF06 = true :=
+  create_good h hargs hok
+
+/-- **Model boundary as a theorem.** `CreateNode.pyNode` transcribes `SimpleTypeChecker` on raw
+nodes of *any* number of arguments (extra arguments ignored, `IndexError` on none, dangling array
+key, binder list). On a node that has the arity of its operator — every node a constructor
+builds — whose children type-check, with a binder list of plain symbols and no payload elements
+beyond the ones the rule reads, `typeOfNode` (Core) is exactly that rule. Off the arity the two
+differ (`le []`, extra arguments of concat/extract/rotate/ite/select/store/pow, dangling key);
+grid A compares the real checker with `pyNode` on every raw call, exactly. Not expressible: a
+`symbol` node of function type (Python types it with the function type). -/
+theorem typeOfNode_is_checker_on_arity (op : Op) (p : Payload) (ts : List (Option Ty))
+    (har : arityOk op ts.length = true) (hq : rawPayloadOk op p = true) (hs : ∀ t ∈ ts, t.isSome = true) :
+    pyNode op p ts = typeOfNode op p ts :=
+  pyNode_eq_typeOfNode op p ts har hq hs
+
+/-- … and for whole terms: where every node has its operator's arity, `wt`/`typeOf` is the real
+checker (`wtRaw`/`typeOfRaw`), in both directions. -/
+theorem typeOf_is_checker_on_arity (t : Term) (ha : t.arityOkAll = true) :
+    (t.wt = true ↔ t.wtRaw = true) ∧ (t.wt = true → t.typeOfRaw = t.typeOf) :=
+  ⟨⟨fun h => (raw_of_wt t ha h).1, fun h => (wt_of_raw t ha h).1⟩, fun h => (raw_of_wt t ha h).2⟩
 
 /-! ## witnesses: the exclusions cannot be dropped -/
 section witnesses
@@ -183,6 +244,20 @@ example : (run [⟨.symbol, [], .sym (Sym.var "x" .int)⟩, ⟨.intConst, [], .i
   have e4 : typeOfNode .not .none [some .int] = none := by decide
   simp [run, step, lookupArgs, Hist.init, Mgr.init, Hist.returned, createNode, Term.typeOf, e1, e2, e3, e4, xI,
     Term.var, Term.sym, Term.int]
+/-- `Built` is inhabited by a compound term: `Not(p)`, `x < 1` -/
+example : Built (Term.node .not [pB] .none) := by
+  refine Built.Not (f := pB) (Built.symbol _ rfl) ?_
+  simp [Mk.Not, Mk.create, pB, Term.var, Term.sym, Sym.var, Term.typeOf]
+  decide
+example : Built (Term.node .lt [xI, .int 1] .none) := by
+  refine Built.LT (l := xI) (r := .int 1) (Built.symbol _ rfl) (Built.intC 1) ?_
+  simp [Mk.LT, Mk.create, xI, Term.var, Term.sym, Sym.var, Term.int, Term.typeOf]
+  decide
+/-- off the arity the real rule and `typeOfNode` differ (so `arityOk` cannot be dropped):
+`le []` raises in Python, `ite` with a fourth argument is accepted -/
+example : pyNode .le .none [] = none ∧ typeOfNode .le .none [] = some .bool := by decide
+example : pyNode .ite .none [some .bool, some .int, some .int, some .real] = some .int ∧
+    typeOfNode .ite .none [some .bool, some .int, some .int, some .real] = none := by decide
 end witnesses
 
 end C03
